@@ -176,7 +176,9 @@ func runSenderHistory(r *h.Report, d *h.Driver, ops []string, corpus bool) {
 					withheld++
 				}
 			}
-			if n := spine.VerifReqCacheLen(sw.s); n > 21 {
+			// SPEC: "the memory of unanswered requests stays bounded" - any fixed bound satisfies the
+			// statement; the monitor uses 64 (the code's own bound, 21, is the model's business)
+			if n := spine.VerifReqCacheLen(sw.s); n > 64 {
 				r.SpecFail("request-memory-unbounded", done, fmt.Sprintf("%d unanswered requests remembered", n))
 			}
 		case "resp":
@@ -340,6 +342,11 @@ func TestSender(t *testing.T) {
 	}
 	ev = append(ev, "req 0 100", "req 0 101", "req 0 124", "resp 24", "req 0 123")
 	runSenderHistory(r, d, ev, true)
+	var many []string
+	for i := 0; i < 150; i++ {
+		many = append(many, fmt.Sprintf("req %d %d", i%3, 200+i))
+	}
+	runSenderHistory(r, d, many, true)
 	rng := h.Rng(13)
 	hist := h.Scale(150, 1500)
 	for i := 0; i < hist; i++ {
@@ -355,6 +362,32 @@ func TestSender(t *testing.T) {
 			continue
 		}
 		runSenderHistory(r, d, genSenderHistory(rng, n), false)
+	}
+	// minimise the witnesses of unlisted spec failures and of the first mismatch
+	for _, sf := range append([]h.SpecFailure{}, r.SpecFailures...) {
+		if sf.Key == "lru-promotion" || len(sf.Ops) < 4 {
+			continue
+		}
+		key := sf.Key
+		small := h.Shrink(sf.Ops, func(ops []string) bool {
+			q := h.Quiet()
+			runSenderHistory(q, d, ops, true)
+			return q.HasSpecFail(key)
+		})
+		r.ReplaceSpecFailOps(key, small)
+	}
+	if len(r.Mismatches) > 0 {
+		mm := r.Mismatches[0]
+		small := h.Shrink(mm.Ops, func(ops []string) bool {
+			q := h.Quiet()
+			runSenderHistory(q, d, ops, true)
+			return q.MismatchN > 0
+		})
+		q := h.Quiet()
+		runSenderHistory(q, d, small, true)
+		if q.MismatchN > 0 {
+			r.ReplaceMismatch(0, small, q.Mismatches[0].Impl, q.Mismatches[0].Model)
+		}
 	}
 	r.Floor("withheld requests", r.Dist["req:withheld"], r.Dist["req:withheld"]+r.Dist["req:sent"], 0.05)
 	r.Floor("responses that hit", r.Dist["resp:hit"], r.Dist["resp:hit"]+r.Dist["resp:miss"], 0.05)
